@@ -258,7 +258,7 @@ def awkward_variants(op, cases, tier, salt):
 
     def mkarr(ls, struct, route, extra, spelling=0, reverse_fields=False):
         return awk.build(ls[0].system, rows_of(ls), ls[0].momentum, struct, route=route, spelling=spelling,
-                         extra=extra and route != "with_name", reverse_fields=reverse_fields)
+                         extra=(extra if extra == "nested" else (extra and route != "with_name")), reverse_fields=reverse_fields)
 
     def mk(sname, route, other="same", selfmode="array", extra=True, spelling=0):
         struct = S[sname]
@@ -408,6 +408,12 @@ def awkward_variants(op, cases, tier, salt):
             return v, a
         yield {"name": f"awkward:{sname}:{route}:physical={kd}", "backend": "awkward", "pairing": "paired", "build": build_twin,
                "struct": st, "route": route, "extra": route != "with_name"}
+    # extra fields deeper than the vectors (a list of hits and a string per vector) on the receiving array
+    for i_, sname in enumerate(("jagged", "flat", "option_list") if tier == "thorough" else (("jagged", "flat", "option_list")[k % 3],)):
+        route = ("zip", "with_name")[(k + i_) % 2]   # vector.Array type-checks every field: numeric extra fields only
+        b, st = mk(sname, route, extra="nested")
+        yield {"name": f"awkward:{sname}:{route}:nested-extra-fields", "backend": "awkward", "pairing": "paired", "build": b, "struct": st,
+               "route": route, "extra": "nested"}
     b, st = mk("jagged", "zip")
     yield {"name": "awkward:regular:zip", "backend": "awkward", "pairing": "paired",
            "build": _regular_builder(selfs, cases, plain, vecpos, n), "struct": [list(range(n // 2)), list(range(n // 2, n))],
